@@ -298,7 +298,15 @@ func (vc *VC) evalBuiltin(st *State, name string, call *ast.CallExpr) Val {
 		}
 		return sc(ite(sx(lt, a.T, b.T), b.T, a.T), a.S)
 	case "recover":
-		return sc(vc.declare("recovered", SRef), SRef)
+		r := vc.declare("recovered", SRef)
+		if vc.unw != nil {
+			// during an abrupt exit: non-nil exactly when a panic is in flight and has not been recovered yet;
+			// recovering stops the panic (a Goexit cannot be recovered: recover() returns nil)
+			active := and(vc.unw.isPanic, not(vc.unw.recovered))
+			vc.assume(st, eq(eq(r, "nil"), not(active)))
+			vc.unw.recovered = vc.define("unw.recovered", SBool, or(vc.unw.recovered, and(st.pc, active)))
+		}
+		return sc(r, SRef)
 	case "close":
 		vc.evalArgs(st, call)
 		return &TupleV{}
@@ -570,6 +578,12 @@ func (vc *VC) evalDSL(st *State, fi *FuncInfo, fn *types.Func, call *ast.CallExp
 		return sc(sel(sel(hd, m.T), k.T), SBool)
 	case name == "heldPolicy":
 		return sc(vc.anyHeld(st, "Store.policyMu", false), SBool)
+	case name == "goexited":
+		// true on the exit taken when a function value called by this function ended in runtime.Goexit
+		if vc.goexitTerm != "" {
+			return sc(vc.goexitTerm, SBool)
+		}
+		return sc("false", SBool)
 	case name == "heldShard":
 		return sc(vc.anyHeld(st, "RBMutex", false), SBool)
 	case name == "heldShardR":
@@ -1139,6 +1153,7 @@ func (vc *VC) runBody(st *State, fi *FuncInfo, lit *ast.FuncLit, ftype *ast.Func
 		vc.runDefers(end)
 		fr.returns = append(fr.returns, end)
 	}
+	vc.processUnwinds(fr, savedDefers)
 	vc.frames = vc.frames[:len(vc.frames)-1]
 	m := vc.merge(fr.returns)
 	if m == nil {
@@ -1208,7 +1223,9 @@ func (vc *VC) callFuncValue(st *State, call *ast.CallExpr) Val {
 					recv = vc.eval(st, se.X)
 				}
 				args := vc.evalArgs(st, call)
-				return vc.callModular(st, nil, si, recv, args, call.Pos(), owner+"."+se.Sel.Name)
+				res := vc.callModular(st, nil, si, recv, args, call.Pos(), owner+"."+se.Sel.Name)
+				vc.forkUnwind(st, si)
+				return res
 			}
 		}
 	}
@@ -1251,7 +1268,9 @@ func (vc *VC) callFuncValue(st *State, call *ast.CallExpr) Val {
 				}
 				args = append(args, v)
 			}
-			return vc.callModular(st, nil, si, recv, args, call.Pos(), key)
+			res := vc.callModular(st, nil, si, recv, args, call.Pos(), key)
+			vc.forkUnwind(st, si)
+			return res
 		}
 	}
 	panic(unsupported("call through function value %s without fspec contract (at %s)", exprString(fun), vc.prog.pos(call.Pos())))
@@ -1599,4 +1618,67 @@ func (vc *VC) evalEmbeddedPath(st *State, X ast.Expr, selInfo *types.Selection) 
 		}
 	}
 	return v
+}
+
+// forkUnwind: a call through a function value whose contract carries flag("may_unwind") may also not return:
+// the callee panics or calls runtime.Goexit. The state after the call's effects is kept as an abrupt exit of the
+// current frame (its deferred calls run when the frame is left, see processUnwinds); the normal path continues
+// under the complementary condition.
+func (vc *VC) forkUnwind(st *State, si *SpecInfo) {
+	if si == nil || !si.Flags["may_unwind"] || vc.unw != nil || vc.specMode || vc.dry != 0 || st.pc == "false" || len(vc.frames) == 0 {
+		return
+	}
+	uk := vc.declare("unwound", SBool)
+	u := st.clone()
+	u.pc = vc.newPC(and(st.pc, uk))
+	st.pc = vc.newPC(and(st.pc, not(uk)))
+	fr := vc.frames[len(vc.frames)-1]
+	fr.unwinds = append(fr.unwinds, unwound{st: u, isPanic: vc.declare("unwoundByPanic", SBool)})
+}
+
+// processUnwinds runs, for every abrupt exit recorded in the frame, the frame's deferred calls (LIFO) with
+// recover() behaving as the language defines it. An exit whose panic was recovered becomes a normal return of
+// the frame; the others continue in the calling frame (whose deferred calls are parentDefers). At the function
+// under verification an unrecovered exit leaves the function: its always_* postconditions are obligations there
+// (`.onunwind`), with goexited() telling a Goexit from a panic.
+func (vc *VC) processUnwinds(fr *frame, parentDefers []deferred) {
+	uws := fr.unwinds
+	fr.unwinds = nil
+	for _, uw := range uws {
+		ctx := &unwindCtx{isPanic: uw.isPanic, recovered: "false"}
+		vc.unw = ctx
+		vc.runDefers(uw.st)
+		vc.unw = nil
+		if uw.st.pc == "false" {
+			continue
+		}
+		if ctx.recovered != "false" {
+			r := uw.st.clone()
+			r.pc = vc.newPC(and(r.pc, ctx.recovered))
+			r.defers = nil
+			fr.returns = append(fr.returns, r)
+		}
+		n := uw.st
+		n.pc = vc.newPC(and(n.pc, not(ctx.recovered)))
+		if len(vc.frames) >= 2 {
+			parent := vc.frames[len(vc.frames)-2]
+			n.defers = append([]deferred{}, parentDefers...)
+			parent.unwinds = append(parent.unwinds, unwound{st: n, isPanic: uw.isPanic})
+			continue
+		}
+		// leaving the function under verification abruptly
+		if vc.fn == nil || vc.fn.Spec == nil {
+			continue
+		}
+		vc.goexitTerm = not(uw.isPanic)
+		b := vc.bindSpec(vc.fn.Spec, vc.specRecv, vc.specArgs, nil)
+		for _, c := range vc.fn.Spec.Clauses {
+			if c.Kind == "ensures" && strings.HasPrefix(c.Name, "always_") {
+				t := vc.evalClause(n, vc.fn.Spec, c.Expr, vc.entry)
+				vc.oblige(n, "post", c.Name+".onunwind", c.Pos, t, "postcondition "+c.Name+" on the exit taken when a called function value panics or calls runtime.Goexit")
+			}
+		}
+		vc.unbind(b)
+		vc.goexitTerm = ""
+	}
 }
